@@ -122,7 +122,7 @@ def returned(vc, post_stmts, st):
     if len(rets) != 1 or len(post_stmts) != 1:
         raise Unsupported("statements after the loop other than a single return")
     v = rets[0].value
-    if isinstance(v, ast.Call) and ast.unparse(v.func) == "numpy.asarray" and isinstance(v.args[0], ast.Name):
+    if isinstance(v, ast.Call) and ast.unparse(v.func) in ("numpy.asarray", "numpy.array", "np.asarray", "np.array") and isinstance(v.args[0], ast.Name):
         return st[v.args[0].id]
     if isinstance(v, ast.Name):
         o = st[v.id]
